@@ -40,7 +40,7 @@ def sk_domain(env, thorough):
 
 def msg_domain():
     return [b"", b"\x00", b"\x00" * 32, bytes(range(55)), bytes(range(56)), bytes(range(64)), bytes(range(65)),
-            bytes(i & 0xFF for i in range(1024)), b"abc"]
+            bytes(i & 0xFF for i in range(1024)), b"abc", b"\xa5" * (1 << 22)]
 
 
 OWN_PK = -1  # message index meaning "the signer's own 48 public-key bytes"
@@ -104,6 +104,11 @@ def agg_lists(env):
         [("aug", k1, 2), ("aug", k2, 3), ("aug", k3, 2)],
         [("basic", k1, 0), "INF"], ["INF"], ["INF", "INF"],
         [("basic", k1, 0), ("pop", k2, 1), ("aug", k3, 8)],
+        # a proper prefix that cancels to the identity, followed by more
+        [("basic", k1, 0), ("basic", R_ - k1, 0), ("basic", k2, 1)],
+        [("basic", 2, 0), ("basic", 3, 0), ("basic", R_ - 5, 0), ("basic", k3, 2)],
+        [("pop", k1, 2), ("pop", R_ - k1, 2), "INF", ("pop", k2, 2), ("pop", k2, 2)],
+        [("basic", k1, 0), ("basic", k2, 1), ("basic", R_ - k1, 0)],
     ]
     return L
 
@@ -159,7 +164,9 @@ def run(ctx):
     ctx.bounds = {"secret_keys": len(sks), "messages": len(msgs), "suites": 3, "aggregate_lists": len(agg_lists(ctx.env))}
     tasks = []
     for i, sk in enumerate(sks):
-        m = mis if (not ctx.quick or i < 5) else [0, 2, 7]
+        m = [x for x in mis if x != 9] if (not ctx.quick or i < 5) else [0, 2, 7]
+        if i == 0:
+            m = m + [9]
         for ch in ([m[:5], m[5:]] if len(m) > 5 else [m]):
             tasks.append(("outputs", {"suites": ["basic", "aug", "pop"], "sks": [hex(sk)], "mis": ch, "sample": i == 0}))
     n = len(agg_lists(ctx.env))
